@@ -138,7 +138,10 @@ def _install_constructor_guard(expr_base):
         from .core import HarnessError, is_symbolic
 
         def sym(x):
-            if is_symbolic(x) or hasattr(builtins.type(x), "_symx_real"):
+            t = builtins.type(x)
+            # (exact types: isinstance(<builtin slice>, SymSlice) is true by design of the slice shim)
+            if t in (SymInt, SymReal, SymBool) or (t is SymSlice and any(builtins.type(m) in (SymInt, SymReal) for m in x._tup())) \
+                    or hasattr(t, "_symx_real"):
                 return True
             if isinstance(x, (tuple, list)):
                 return any(sym(y) for y in x)
@@ -211,6 +214,9 @@ class NodeSpace:
                 operands.append(real._defaults[p])
         if kwargs:
             raise TypeError(f"{real.__name__}: unexpected operands {sorted(kwargs)}")
+        # as dask's Expr.__new__: collections among the operands are replaced by their expressions
+        operands = [o.expr if (not isinstance(o, self.expr_base) and hasattr(o, "expr") and
+                               builtins.type(o).__name__ != "Delayed") else o for o in operands]
         inst = object.__new__(sub)
         object.__setattr__(inst, "_determ_token", None)
         object.__setattr__(inst, "operands", operands)
